@@ -224,8 +224,12 @@ func runSpec(r *core.Run, rtl bool) int {
 		if w.Kind == "mirror" {
 			return replayMirror(w)
 		}
+		if w.Kind == "literal-runes" {
+			return replayLiteralRunes(w)
+		}
 		return replaySpec(w)
 	})
+	runLiteralRunes(r, rtl)
 	nPat := r.Pick(2400, 24000)
 	maxLen := r.Pick(5, 6)
 	nDirected := r.Pick(40, 120)
